@@ -73,6 +73,11 @@ func (rs *reqState) decodeResponse(resp Response) *clientView {
 				cv.Err = fmt.Errorf("gRPC frame %d has flag byte %#x", len(cv.Msgs), f.Flag)
 				return cv
 			}
+			if f.Flag == 1 && resp.Header.Get("Grpc-Encoding") == "" {
+				// (grpc-go: "compressed flag set with identity or empty encoding")
+				cv.Err = fmt.Errorf("gRPC frame %d is flagged compressed but the response declares no grpc-encoding (header %v)", len(cv.Msgs), resp.Header)
+				return cv
+			}
 			if !add(sp.Codec, f.Payload) {
 				return cv
 			}
@@ -113,6 +118,10 @@ func (rs *reqState) decodeResponse(resp Response) *clientView {
 				cv.Err = fmt.Errorf("message frame after the trailer frame")
 				return cv
 			}
+			if f.Flag&1 == 1 && resp.Header.Get("Grpc-Encoding") == "" {
+				cv.Err = fmt.Errorf("gRPC-web frame %d is flagged compressed but the response declares no grpc-encoding (header %v)", len(cv.Msgs), resp.Header)
+				return cv
+			}
 			if !add(sp.Codec, f.Payload) {
 				return cv
 			}
@@ -125,6 +134,22 @@ func (rs *reqState) decodeResponse(resp Response) *clientView {
 		}
 	case "http":
 		body := resp.Body
+		// a client that sent an Accept header decodes by what the response
+		// says it is
+		httpCodec := sp.Codec
+		if sp.Accept != "" && resp.Status == 200 {
+			switch ct := resp.Header.Get("Content-Type"); {
+			case ct == "application/json":
+				httpCodec = "json"
+			case ct == "application/protobuf", ct == "application/octet-stream":
+				httpCodec = "proto"
+			case ct == "" && len(body) == 0:
+				httpCodec = sp.Accept // nothing was written at all
+			default:
+				cv.Err = fmt.Errorf("the request asked for %s; the response is labelled Content-Type %q", sp.Accept, ct)
+				return cv
+			}
+		}
 		if !rs.method.ServerS {
 			// single message, the whole body; when the handler failed the body
 			// also holds the error rendering, which has no framing to split on
@@ -139,7 +164,7 @@ func (rs *reqState) decodeResponse(resp Response) *clientView {
 				if sp.Codec == "body" || rs.method.httpBodyResp {
 					cv.Raw = append(cv.Raw, body)
 				} else {
-					add(sp.Codec, body)
+					add(httpCodec, body)
 				}
 			} else {
 				cv.Trailing = body
@@ -149,7 +174,7 @@ func (rs *reqState) decodeResponse(resp Response) *clientView {
 		switch {
 		case rs.method.Key == "files":
 			cv.Raw = append(cv.Raw, body) // raw passthrough: one blob
-		case sp.Codec == "json":
+		case httpCodec == "json":
 			objs, rest := wire.SplitJSONObjects(body)
 			cv.Trailing = rest
 			for _, o := range objs {
